@@ -46,6 +46,8 @@ type Chain struct {
 	// of the last block: the application hash returned by Commit and the validator updates returned by EndBlock
 	LastHash    []byte
 	LastUpdates []abci.ValidatorUpdate
+	// evidence of misbehaviour the next block carries (consumed by Block)
+	NextEvidence []abci.Evidence
 }
 
 type emptyOpts struct{}
@@ -150,7 +152,9 @@ func (c *Chain) Block(signed []bool, msgs []*Msg) (f *Failure) {
 			f = &Failure{Stage: stage, Value: fmt.Sprint(r), Stack: string(debug.Stack())}
 		}
 	}()
-	c.App.BeginBlock(abci.RequestBeginBlock{Header: header, LastCommitInfo: abci.LastCommitInfo{Votes: votes}})
+	ev := c.NextEvidence
+	c.NextEvidence = nil
+	c.App.BeginBlock(abci.RequestBeginBlock{Header: header, LastCommitInfo: abci.LastCommitInfo{Votes: votes}, ByzantineValidators: ev})
 	ctx := c.App.BaseApp.NewContext(false, header)
 	for _, m := range msgs {
 		func() {
